@@ -27,7 +27,10 @@ def budget(tier):
 def strategy_(draw, tier):
     early = not known.active("pool-ignores-explicit-vanilla-signals")
     linear = known.active("shared-network-leak")
-    prog = draw(gen.scalar_program(early_virtual=early, linear=linear))
+    if draw(st.integers(0, 6)) == 0:
+        prog = draw(gen.scalar_with_consumers(early_virtual=early, linear=linear))
+    else:
+        prog = draw(gen.scalar_program(early_virtual=early, linear=linear))
     names = list(lang.input_decls(prog))
     n = 4 if tier == "quick" else 10
     vals = draw(gen.valuations(names, n))
